@@ -673,7 +673,7 @@ spifconf_shell_expand(spif_charptr_t s)
                   EnvVar[k] = 0;
                   tmp = (spif_charptr_t) getenv((char *) EnvVar);
                   if (tmp && *tmp) {
-                      spiftool_safe_strncpy(newbuff, tmp, max - j);
+                      spiftool_safe_strncpy(newbuff + j, tmp, max - j);
                       cnt1 = strlen((char *) tmp) - 1;
                       cnt2 = max - j - 1;
                       j += MIN(cnt1, cnt2);
